@@ -110,7 +110,7 @@ func run(c *core.Ctx) int {
 	c.Assume("tail calls: call depth is implementation-defined; event streams of programs that execute tail calls are not compared across engines, but every Before still needs its own After/Abort")
 	c.Assume("the stack iterator is only required to list the frames of the current api.Function.Call activation")
 	return c.Finish(evals, int64(c.DistinctN("programs_with_events")),
-		"call-heavy wgen programs x PRNG call scripts x listener sets {all functions, PRNG subset} x both engines; online bracket automaton + shadow stack, iterator vs shadow stack, params/results vs harness-known values and host-call log, cross-engine stream equality (non-tail-call programs), guest trace with vs without listeners; every 8th case: two runtimes sharing a CompilationCache each with its own recorder; non-trivial = program produced listener events; plus (counters cross_*) hand-built cross-module scenario: 2-3 wasm modules + host module in one runtime, one listener object per definition, listener subsets, exact model of every event")
+		"call-heavy wgen programs x PRNG call scripts x listener sets {all functions, PRNG subset} x both engines; online bracket automaton + shadow stack, iterator vs shadow stack, params/results vs harness-known values and host-call log, cross-engine stream equality (non-tail-call programs), guest trace with vs without listeners; every 8th case: two runtimes sharing a CompilationCache each with its own recorder, and one binary compiled twice through one cache with listener subsets that differ in one function (stream must equal that subset compiled alone); non-trivial = program produced listener events; plus (counters cross_*) hand-built cross-module scenario: 2-3 wasm modules + host module in one runtime, one listener object per definition, listener subsets, exact model of every event")
 }
 
 // ---------------------------------------------------------------------------
@@ -647,6 +647,7 @@ func child(mode string, in json.RawMessage) any {
 
 	if lc.Shared {
 		sharedCase(p, script, &lr, add)
+		subsetPairCase(lc.Seed, &lr, add)
 	}
 
 	var streams [2][]ev
@@ -998,6 +999,118 @@ func sharedCase(p *wgen.Program, script []wrun.Step, lr *lresult, add func(strin
 		}
 		sA.Close()
 		sB.Close()
+		cache.Close(context.Background())
+	}
+}
+
+// subsetPairCase: one binary is compiled twice in one cache domain (two runtimes sharing a CompilationCache), each
+// time with a factory that selects a DIFFERENT subset of its functions (the subsets differ in exactly one function,
+// preferably one with a high index). Only the second instance is called: its recorder must receive exactly the stream
+// that the same subset receives in a runtime of its own, and the first recorder must stay silent.
+func subsetPairCase(seed uint64, lr *lresult, add func(string, string)) {
+	r := core.NewRng(int64(seed), 31)
+	cfg := wgen.DefaultConfig(r)
+	cfg.Funcs = 9 + r.Intn(10)
+	cfg.CallHeavy = true
+	cfg.TailCall = false
+	if cfg.HostFuncs > 8 {
+		cfg.HostFuncs = 2
+	}
+	p := wgen.Generate(r, cfg)
+	script := wrun.GenScript(r, p, 3+r.Intn(4))
+	nImp, nLoc := len(p.Host), len(p.Funcs)
+	flip := uint32(nImp + nLoc - 1 - r.Intn(nLoc-8)) // a local function whose position in the function section is >= 8
+	variant := r.Intn(3)
+	subSeed := r.U64()
+	base := func(f fid) bool {
+		if f.host() || variant == 0 {
+			return true // variant 0: all functions
+		}
+		h := subSeed ^ uint64(f.idx())*0x9E3779B97F4A7C15
+		h ^= h >> 29
+		h *= 0xBF58476D1CE4E5B9
+		if variant == 1 {
+			return (h>>17)&3 != 0 // ~75%
+		}
+		return (h>>17)&7 == 0 || f.idx() == uint32(nImp) // sparse, first local function always
+	}
+	s1 := func(f fid) bool { return base(f) }
+	s2 := func(f fid) bool {
+		if !f.host() && f.idx() == flip {
+			return !base(f)
+		}
+		return base(f)
+	}
+	if r.Bool() {
+		s1, s2 = s2, s1
+	}
+	lr.Events["subset_pair_cases"]++
+	for _, compiler := range []bool{false, true} {
+		eng := map[bool]string{false: "interp", true: "compiler"}[compiler]
+		run := func(cache wazero.CompilationCache, sets ...func(fid) bool) (recs []*recorder, last *wrun.Inst, close func()) {
+			var ss []*wrun.Session
+			for _, set := range sets {
+				rec := &recorder{engine: eng, tcFuncs: map[fid]bool{}, counts: map[string]int{}, listened: set}
+				ctx := experimental.WithFunctionListenerFactory(context.Background(), rec)
+				s := wrun.NewSession(wrun.Options{Compiler: compiler, Ctx: ctx, NoDigest: true, RuntimeConfig: func(rc wazero.RuntimeConfig) wazero.RuntimeConfig {
+					if cache != nil {
+						rc = rc.WithCompilationCache(cache)
+					}
+					return rc
+				}}, wrun.Features(p.Cfg))
+				ss = append(ss, s)
+				recs = append(recs, rec)
+				last = s.Instantiate(p, "guest")
+			}
+			return recs, last, func() {
+				for _, s := range ss {
+					s.Close()
+				}
+			}
+		}
+		refRecs, refIn, refClose := run(nil, s2)
+		for si, st := range script {
+			refIn.Step(si, st)
+		}
+		ref := append([]ev(nil), refRecs[0].events...)
+		refOverflow := refRecs[0].overflow || refIn.T.StackOverflow
+		refClose()
+
+		cache := wazero.NewCompilationCache()
+		recs, inB, closeAll := run(cache, s1, s2)
+		nA := len(recs[0].events)
+		for si, st := range script {
+			inB.Step(si, st)
+		}
+		got := recs[1].events
+		switch {
+		case len(recs[0].events) > nA:
+			add("subset-pair:events-delivered-to-the-other-compilation's-listeners:"+eng,
+				fmt.Sprintf("two compilations of one binary through one cache with listener subsets that differ in function %d: the first factory's listeners received %d events for calls made on the second instance only (second received %d, alone it receives %d)", flip, len(recs[0].events)-nA, len(got), len(ref)))
+		case refOverflow || recs[1].overflow || inB.T.StackOverflow:
+			lr.Events["subset_pair_inconclusive_overflow"]++
+		default:
+			diff := -1
+			for i := 0; i < len(ref) && i < len(got); i++ {
+				if ref[i].K != got[i].K || ref[i].Key != got[i].Key || hexs(ref[i].Vals) != hexs(got[i].Vals) {
+					diff = i
+					break
+				}
+			}
+			if diff < 0 && len(ref) != len(got) {
+				diff = min(len(ref), len(got))
+			}
+			if diff >= 0 {
+				add("subset-pair:stream-differs-from-the-same-subset-compiled-alone:"+eng,
+					fmt.Sprintf("listener subsets differ in function %d (variant %d); alone the second subset receives %d events, after the first compilation through the same cache %d; first difference at event %d", flip, variant, len(ref), len(got), diff))
+			} else {
+				lr.Events["subset_pair_streams_equal"]++
+				if len(ref) > 0 {
+					lr.Events["subset_pair_streams_equal_nonempty"]++
+				}
+			}
+		}
+		closeAll()
 		cache.Close(context.Background())
 	}
 }
